@@ -974,10 +974,10 @@ def run(tier):
            bg("cb1", lambda: gen("cb1", menu, 3 if quick else 4, workers=1 if quick else 2, timeout=1500)),
            bg("files", lambda: gen("files", menu, 3 if quick else 5, workers=1 if quick else 2, timeout=1500)),
            bg("dev", lambda: gen("dev", menu, 1, workers=1, timeout=1500)),
-           bg("mc", lambda: tlc.mc("C03", "RotMC", "RotMC.cfg", workers=2 if quick else 4, heap="6g", timeout=900,
+           bg("mc", lambda: tlc.mc("C03", "RotMC", "RotMC.cfg", workers=2 if quick else 4, heap="6g", timeout=900, env={"C03_DEVICES": "RotMC_devices.ndjson"},
                                    require_actions=("LCompute", "LComputeFor", "LWriteFile", "LReadByPath", "LBuild21", "LExport21", "LParse21", "LSetUserData",
                                                     "LSetConstraints", "LBuild1", "LExport1", "LParse1", "LSetImageLength"))),
-           bg("asbuilt", lambda: tlc.run("C03", "RotMC", "RotMC_asbuilt.cfg", workers=1, heap="4g", timeout=900))]
+           bg("asbuilt", lambda: tlc.run("C03", "RotMC", "RotMC_asbuilt.cfg", workers=1, heap="4g", timeout=900, env={"C03_DEVICES": "RotMC_devices.ndjson"}))]
     if not quick:  # longer histories over the small menus (the full menus are exhausted to depth 3)
         ths.append(bg("cb21-deep", lambda: gen("cb21", "small", 5, workers=2, timeout=1500)))
     for th in ths:
